@@ -617,6 +617,42 @@ func c16Orderly(c *Ctx, p *Prog) {
 				}
 			}
 		})
+		// … and writes nothing itself unless the write is bounded: gorilla serialises writers with
+		// an internal lock, a data write stalled by TCP back-pressure holds it, and WriteControl
+		// with a zero deadline waits for it without limit
+		for _, fn := range WithClosures(closeFn) {
+			EachInstr(fn, func(i ssa.Instruction) {
+				cc := CallOf(i)
+				if cc == nil {
+					return
+				}
+				n := CalleeName(cc)
+				switch n[strings.LastIndex(n, ".")+1:] {
+				case "WriteMessage", "WriteJSON", "NextWriter", "WritePreparedMessage":
+					if strings.Contains(n, "gorilla/websocket.Conn") {
+						bad = "Close writes to the websocket with " + n[strings.LastIndex(n, ".")+1:] + " at " + p.Pos(i.Pos()) + " (unbounded: waits behind a data write stalled by back-pressure)"
+					}
+				case "WriteControl":
+					if !strings.Contains(n, "gorilla/websocket.Conn") {
+						return
+					}
+					a := Args(cc)
+					bounded := false
+					if len(a) > 3 {
+						if add := CallResult(a[3], 0, "(time.Time).Add"); add != nil {
+							if CallResult(add.Call.Args[0], 0, "time.Now") != nil {
+								if d, isC := ConstInt(add.Call.Args[1]); isC && d > 0 {
+									bounded = true
+								}
+							}
+						}
+					}
+					if !bounded {
+						bad = "Close sends a control frame with WriteControl at " + p.Pos(i.Pos()) + " whose deadline is not time.Now().Add(<positive constant>) (a zero deadline waits for gorilla's write lock without limit while a data write is stalled by back-pressure)"
+					}
+				}
+			})
+		}
 		c.Check("C16.A", "close:"+tn+":never-waits-for-io", p, closeFn.Pos(), bad == "", tn+".Close takes no lock that another method holds while blocked in network I/O", tn+": "+bad+": the Close that must unblock a pending Read waits for that Read, so closeBoth() hangs, the websocket is never closed and the far peer never sees end-of-stream")
 	}
 	if nw == 0 {
